@@ -446,14 +446,16 @@ for nm, ty, mk, uses in (
          ['l(x, %s) <-- inp(x, y)' % mk, 'l(z, v.clone()) <-- l(x, v), step(x, z)', 'seen(*x) <-- l(x, _)'], uses=uses, tags=['family', 'lattice'])
 # aggregators
 P('fam_aggs', ['relation g(i32, i32, i32)', 'relation k(i32)', 'relation o1(i32, i32)', 'relation o2(i32)', 'relation o3(i32, i64)', 'relation o4(i32, i32)',
-               'relation o5(usize)', 'relation o6(i32)', 'relation o7(i32, i32)'],
+               'relation o5(usize)', 'relation o6(i32)', 'relation o7(i32, i32)', 'relation o8(i32, i32)', 'relation o9(i32, i32)'],
   ['o1(x, m) <-- k(x), agg m = max(v) in g(x, _, v)',
    'o2(s) <-- agg s = sum(v) in g(_, _, v)',
    'o3(x, a as i64) <-- k(x), agg a = mean(v) in g(x, 3, v)',
    'o4(x, m) <-- k(x), agg m = min(v) in g(x, x + 1, v)',
    'o5(c) <-- agg c = count() in k(_)',
    'o6(p) <-- agg p = (percentile(50.0))(v) in g(_, _, v)',
-   'o7(a, b) <-- k(z), agg (a, b) = second_pair(v, w) in g(z, v, w)'],
+   'o7(a, b) <-- k(z), agg (a, b) = second_pair(v, w) in g(z, v, w)',
+   'o8(a, b) <-- k(z), agg (a, b) = second_pair(w, v) in g(z, v, w)',
+   'o9(a, b) <-- agg (a, b) = second_pair(w, z) in g(z, _, w)'],
   pre='   pub fn second_pair<\'a>(inp: impl Iterator<Item = (&\'a i32, &\'a i32)>) -> std::vec::IntoIter<(i32, i32)> { inp.map(|(a, b)| (*a, *b)).take(1).collect::<Vec<_>>().into_iter() }',
   tags=['family', 'agg'])
 both('agg_rep', ['relation foo(i32, i32)', 'relation m(i32)', 'relation g(i32, i32, i32)', 'relation k(i32)', 'relation s(i32, i32)', 'relation c(usize)'],
